@@ -68,7 +68,11 @@ ASSUMPTIONS = [
     "real pools use the fork start method (the one nessai recommends)",
 ]
 
-VKS = ["vec", "vec-off", "nv-raise", "nv-sum"]
+VKS = ["vec", "vec-off", "nv-raise", "nv-sum",
+       # mixed models: likelihood kind / prior kind differ (vectorisation is
+       # detected separately per function)
+       "mix:vec/nv-sum", "mix:nv-sum/vec", "mix:vec/nv-raise",
+       "mix:nv-raise/vec"]
 RKS = ["scalar", "array"]
 UKS = ["default", "custom"]
 
@@ -164,24 +168,32 @@ def make_model(spec):
             cols = [arr[n].tolist() for n in self.names]
             return [tuple(c[i] for c in cols) for i in range(arr.size)]
 
-        def _ret(self, out):
+        def _ret(self, out, vk=vk):
             if rk == "array":
                 return np.atleast_1d(out)
             if vk in ("nv-raise", "nv-sum"):
                 return float(out)
             return out
 
-        def _eval(self, fn, x, rows):
+        def _eval(self, fn, x, rows, vk=vk):
             """Shared arithmetic: fn in ll/lp/lpu (custom)."""
+            if vk.startswith("mix:"):
+                k_ll, k_pr = vk[4:].split("/")
+                vk = k_ll if fn == "ll" else k_pr
+            _ret = self._ret
+            self_ret = lambda out: _ret(out, vk)  # noqa: E731
+            return self._eval_kind(fn, x, rows, vk, self_ret)
+
+        def _eval_kind(self, fn, x, rows, vk, ret):
             if vk == "nv-raise":
                 if np.size(x) != 1:
                     raise TypeError("this function takes one point")
                 row = rows[0]
                 if fn == "ll":
-                    return self._ret(ref_ll(d, row))
+                    return ret(ref_ll(d, row))
                 if fn == "lp":
-                    return self._ret(ref_lp(d, row))
-                return self._ret(ref_lpu(d, row, "custom"))
+                    return ret(ref_lp(d, row))
+                return ret(ref_lpu(d, row, "custom"))
             red = np.sum if vk == "nv-sum" else (lambda v: v)
             if fn == "ll":
                 s = 0.0
@@ -189,7 +201,7 @@ def make_model(spec):
                     t = x[n] * x[n]
                     t = a[k] * t
                     s = s + red(t)
-                return self._ret(-0.5 * s)
+                return ret(-0.5 * s)
             if fn == "lp":
                 inb = True
                 lp = C0
@@ -198,7 +210,7 @@ def make_model(spec):
                     lp = lp + red(b[k] * x[n])
                 if vk == "nv-sum":
                     inb = np.all(inb)
-                return self._ret(np.where(inb, lp, -np.inf))
+                return ret(np.where(inb, lp, -np.inf))
             inb = True
             lp = G0
             for k, n in enumerate(self.names):
@@ -206,7 +218,7 @@ def make_model(spec):
                 lp = lp + red(g[k] * x[n])
             if vk == "nv-sum":
                 inb = np.all(inb)
-            return self._ret(np.where(inb, lp, -np.inf))
+            return ret(np.where(inb, lp, -np.inf))
 
         # -- user functions
         def log_likelihood(self, x):
